@@ -178,4 +178,293 @@ theorem indexed_run_partial {N : Net} {vals : Vals} (app : App) (ep : Nat) (ids 
   · simpa [Model.Indexed.initial] using e
   · simpa [Model.Indexed.initial] using C1
 
+/-! ### C01 for the combined model -/
+
+/-- what a block says: frame, Atropos, cheater list -/
+def blkc (b : Block) : Nat × Nat × List Nat := (b.d.frame, b.d.atropos, b.cheaters)
+
+theorem flatten_blocks (N : Net) (dss : List (List Decided)) :
+    (dss.map (fun ds => ds.map (fun d => (⟨d, specCheaters N d.atropos⟩ : Block)))).flatten.map blkc =
+      (dss.flatten.map blk).map (fun fa => (fa.1, fa.2, specCheaters N fa.2)) := by
+  rw [← List.map_flatten, List.map_map, List.map_map]
+  rfl
+
+/-- **C01 for the combined model** (one epoch). `N`: the valid events of the epoch with accepted
+    frames, forkers below one third. Two instances of `Model.Indexed` — each with its own validator
+    record built by the builder, its own application side (`idKey`), its own vector index filled in
+    its own order — process all events of `N`, each in its own parents-first order. Both accept
+    every event (all answers are `ok`: no wrong-frame rejection, no election error), emit the same
+    sequence of `(frame, Atropos, cheaters)` and end with the same last decided frame.
+    Gone compared with `C01_order_independent_partial`: `hobs₁/₂` (the oracle IS each instance's index),
+    `hvals₁/₂` (`ValsOK`), `hbound` (`FrameBound`). Remaining (see the module doc): `hseal₁/₂` (one epoch),
+    `hsmall`, `WeightsOK`/`BuiltFor` (validators named by canonical index, record built by the
+    builder), `Checked` (events passed the checkers). -/
+theorem indexed_order_independent_partial (N : Net) (vals₁ vals₂ : Vals) (app₁ app₂ : App) (ep₁ ep₂ : Nat)
+    (ids₁ ids₂ : List Nat)
+    (hvalid : Valid N.nVals N.h) (hframes : N.FramesAccepted) (hbft : N.BFT)
+    (horder₁ : PFFrom N [] ids₁) (horder₂ : PFFrom N [] ids₂)
+    (hall₁ : ∀ e, e < N.h.length → e ∈ ids₁) (hall₂ : ∀ e, e < N.h.length → e ∈ ids₂)
+    (hW : WeightsOK N) (hB₁ : BuiltFor N vals₁) (hB₂ : BuiltFor N vals₂) (hchk : Checked N)
+    (hsmall : N.nVals + N.h.length < 4294967296)
+    (hseal₁ : ∀ ep f, app₁.sealAt ep f = none) (hseal₂ : ∀ ep f, app₂.sealAt ep f = none) :
+    ∃ (bss₁ bss₂ : List (List Block)),
+      (runAllIx N app₁ ids₁ (Model.Indexed.initial ep₁ vals₁)).2 = bss₁.map IRes.ok ∧
+      (runAllIx N app₂ ids₂ (Model.Indexed.initial ep₂ vals₂)).2 = bss₂.map IRes.ok ∧
+      bss₁.flatten.map blkc = bss₂.flatten.map blkc ∧
+      (runAllIx N app₁ ids₁ (Model.Indexed.initial ep₁ vals₁)).1.o.ldf =
+        (runAllIx N app₂ ids₂ (Model.Indexed.initial ep₂ vals₂)).1.o.ldf := by
+  have G₁ := gok hvalid hframes hbft hW hB₁ hchk hsmall
+  have G₂ := gok hvalid hframes hbft hW hB₂ hchk hsmall
+  obtain ⟨dss₁, v₁, _, I₁, O₁, e₁, _⟩ := indexed_run_partial app₁ ep₁ ids₁ G₁ hseal₁ horder₁
+  obtain ⟨dss₂, v₂, _, I₂, O₂, e₂, _⟩ := indexed_run_partial app₂ ep₂ ids₂ G₂ hseal₂ horder₂
+  have hb := blocks_unique (ctx_envFC G₁ app₁ hseal₁) (ctx_envFC G₂ app₂ hseal₂) I₁ O₁ I₂ O₂
+    (fun e he => List.mem_reverse.2 (hall₁ e he)) (fun e he => List.mem_reverse.2 (hall₂ e he))
+  refine ⟨dss₁.map (fun ds => ds.map (fun d => (⟨d, specCheaters N d.atropos⟩ : Block))),
+    dss₂.map (fun ds => ds.map (fun d => (⟨d, specCheaters N d.atropos⟩ : Block))), ?_, ?_, ?_, ?_⟩
+  · rw [e₁, List.map_map]; rfl
+  · rw [e₂, List.map_map]; rfl
+  · rw [flatten_blocks, flatten_blocks, hb]
+  · rw [e₁, e₂]
+    show (OrdererRestart3.runAll N (envFC N app₁) ids₁ (Model.Orderer.initial ep₁ vals₁)).1.ldf =
+      (OrdererRestart3.runAll N (envFC N app₂) ids₂ (Model.Orderer.initial ep₂ vals₂)).1.ldf
+    rw [I₁.ldf, I₂.ldf, hb]
+
+/-- what the blocks of one instance of the combined model say (C03/C06 + L5): every block names the
+    Atropos of the rules for its frame, frames are 1, 2, …, and its cheater list — computed by the
+    instance's own index at the moment of the decision — is in canonical order and contains exactly
+    the validators with two different events of equal seq among the ancestors-or-self of the Atropos -/
+theorem indexed_blocks_cheaters_partial (N : Net) (vals : Vals) (app : App) (ep : Nat) (ids : List Nat)
+    (hvalid : Valid N.nVals N.h) (hframes : N.FramesAccepted) (hbft : N.BFT) (horder : PFFrom N [] ids)
+    (hW : WeightsOK N) (hB : BuiltFor N vals) (hchk : Checked N) (hsmall : N.nVals + N.h.length < 4294967296)
+    (hseal : ∀ ep f, app.sealAt ep f = none) :
+    ∃ (bss : List (List Block)),
+      (runAllIx N app ids (Model.Indexed.initial ep vals)).2 = bss.map IRes.ok ∧
+      (∀ i (h : i < bss.flatten.length), (bss.flatten[i]).d.frame = i + 1) ∧
+      ∀ b ∈ bss.flatten, N.IsAtropos b.d.frame b.d.atropos ∧ b.cheaters.Pairwise (· < ·) ∧
+        ∀ c, c ∈ b.cheaters ↔ c < N.nVals ∧ ForkSeen N.h b.d.atropos c := by
+  have G := gok hvalid hframes hbft hW hB hchk hsmall
+  obtain ⟨dss, v, _, I, _, e, _⟩ := indexed_run_partial app ep ids G hseal horder
+  have hfl : (dss.map (fun ds => ds.map (fun d => (⟨d, specCheaters N d.atropos⟩ : Block)))).flatten =
+      dss.flatten.map (fun d => (⟨d, specCheaters N d.atropos⟩ : Block)) := by rw [← List.map_flatten]
+  refine ⟨dss.map (fun ds => ds.map (fun d => (⟨d, specCheaters N d.atropos⟩ : Block))),
+    by rw [e, List.map_map]; rfl, ?_, ?_⟩
+  · intro i h
+    have h2 : i < dss.flatten.length := by rw [hfl, List.length_map] at h; exact h
+    have h' : i < (dss.flatten.map blk).length := by rw [List.length_map]; exact h2
+    have := I.frames i h'
+    rw [List.getElem_map] at this
+    simp only [hfl, List.getElem_map]
+    exact this
+  · intro b hb
+    rw [hfl] at hb
+    obtain ⟨d, hd, rfl⟩ := List.mem_map.1 hb
+    refine ⟨I.atropoi (blk d) (List.mem_map_of_mem hd), ?_, ?_⟩
+    · exact List.Pairwise.filter _ List.pairwise_lt_range
+    · intro c
+      show c ∈ specCheaters N d.atropos ↔ _
+      unfold specCheaters
+      simp [List.mem_filter]
+
+/-! ### C10 for the combined model -/
+
+section Reference
+open Spec.Lachesis RefEquiv
+
+/-- **C10 for the combined model** (one epoch, `(frame, Atropos)` sequences). Let the executable
+    reference `Spec/Lachesis.lean` accept the checked events `evs` (`RefEquiv.Run`), ending in state `s`
+    with blocks `out`. One instance of `Model.Indexed` that processes the events of the net of `s` in
+    ANY parents-first order covering all of them accepts every event, ends with the reference's last
+    decided frame and emits the reference's `(frame, Atropos)` list (the reference names the Atropos
+    by protocol number `(s.ev a).n`). Its cheater lists are C03's sentence
+    (`indexed_blocks_cheaters_partial`), which is what the reference lists (`C03_reference_cheaters`).
+    Gone compared with `C10_model_eq_reference_partial`: `Ctx`'s `obs`, `ok` (`ValsOK`), `hb` (`FrameBound`);
+    validity and accepted frames come from the run. Remaining: BFT, `hseal`, `hsmall`,
+    `WeightsOK`/`BuiltFor`, `Checked` (module doc). -/
+theorem indexed_eq_reference_partial {ep : Nat} {rvals : List (Nat × Nat)} {evs : List Ev} {s : Inst}
+    {out : List Spec.Lachesis.Inst.Block} (hrun : Run ep rvals evs s out) (hbft : (netOf s).BFT) (vals : Vals) (app : App)
+    (hW : WeightsOK (netOf s)) (hB : BuiltFor (netOf s) vals) (hchk : Checked (netOf s))
+    (hsmall : (netOf s).nVals + (netOf s).h.length < 4294967296)
+    (hseal : ∀ ep f, app.sealAt ep f = none) (mep : Nat) (ids : List Nat)
+    (hpf : PFFrom (netOf s) [] ids) (hall : ∀ e, e < s.size → e ∈ ids) :
+    ∃ (bss : List (List Model.Indexed.Block)),
+      (runAllIx (netOf s) app ids (Model.Indexed.initial mep vals)).2 = bss.map IRes.ok ∧
+      (runAllIx (netOf s) app ids (Model.Indexed.initial mep vals)).1.o.ldf = s.ldf ∧
+      bss.flatten.map (fun b => (b.d.frame, (s.ev b.d.atropos).n)) = out.map (fun b => (b.frame, b.atropos)) := by
+  have G := gok (run_inv hrun).valid (run_inv hrun).fa hbft hW hB hchk hsmall
+  have C := ctx_envFC G app hseal
+  obtain ⟨sm, ds, hm, hldf, hds⟩ := C10.C10_model_eq_reference_partial hrun C mep ids hpf hall
+  obtain ⟨dss, h1, h2, h3⟩ := runAll_of_runIds _ _ _ _ _ _ _ hm
+  obtain ⟨v', e, _⟩ := sim_all G hseal ids (Model.Indexed.initial mep vals) [] dss (cInv_initial G.ok mep)
+    (fun _ => Iff.rfl) hpf h1
+  refine ⟨dss.map (fun ds => ds.map (fun d => (⟨d, specCheaters (netOf s) d.atropos⟩ : Model.Indexed.Block))),
+    by rw [e, List.map_map]; rfl, ?_, ?_⟩
+  · rw [e]
+    show (OrdererRestart3.runAll (netOf s) (envFC (netOf s) app) ids (Model.Orderer.initial mep vals)).1.ldf = s.ldf
+    rw [h2]; exact hldf
+  · rw [← List.map_flatten, List.map_map, ← hds, h3, List.nil_append]
+    rfl
+
+end Reference
+
+/-! ### C08 for the combined model -/
+
+/-- **C08 for the combined model** (one epoch). `pre ++ post`: any parents-first processing order of
+    (an ancestry-closed part of) the events of `N`. `sk` = the combined instance that has processed
+    `pre`. Restarting it — `Orderer.Bootstrap` over the PERSISTED index state: nothing is re-indexed,
+    `s₂.v = sk.v`, `s₂.evs = sk.evs` — succeeds, emits no block, reports no seal and keeps the
+    persisted Orderer state; then `s₂` and `sk` answer every event of `post` identically (all accepted,
+    per event the same blocks incl. cheater lists) and end with the same persisted Orderer state and
+    the same index.
+    Gone compared with `C08_restart_invisible_partial`: `hobs` (before AND after the restart the oracle
+    is the instance's index), `hvals`, `hbound`. Remaining: `hframes`, `hseal`, `hsmall`,
+    `WeightsOK`/`BuiltFor`, `Checked`; not modelled: the reload of the index tables from the store. -/
+theorem indexed_restart_invisible_partial (N : Net) (vals : Vals) (app : App) (ep : Nat)
+    (hvalid : Valid N.nVals N.h) (hframes : N.FramesAccepted) (hbft : N.BFT)
+    (hW : WeightsOK N) (hB : BuiltFor N vals) (hchk : Checked N) (hsmall : N.nVals + N.h.length < 4294967296)
+    (hseal : ∀ ep f, app.sealAt ep f = none) (pre post : List Nat) (horder : PFFrom N [] (pre ++ post)) :
+    ∃ (s₂ : IState) (bss : List (List Block)),
+      restartIndexed app (runAllIx N app pre (Model.Indexed.initial ep vals)).1 = .ok (s₂, [], false) ∧
+      s₂.v = (runAllIx N app pre (Model.Indexed.initial ep vals)).1.v ∧
+      s₂.evs = (runAllIx N app pre (Model.Indexed.initial ep vals)).1.evs ∧
+      OrdererRestart.SamePersisted (runAllIx N app pre (Model.Indexed.initial ep vals)).1.o s₂.o ∧
+      (runAllIx N app post (runAllIx N app pre (Model.Indexed.initial ep vals)).1).2 = bss.map IRes.ok ∧
+      (runAllIx N app post s₂).2 = bss.map IRes.ok ∧
+      OrdererRestart.SamePersisted (runAllIx N app post (runAllIx N app pre (Model.Indexed.initial ep vals)).1).1.o
+        (runAllIx N app post s₂).1.o ∧
+      (runAllIx N app post (runAllIx N app pre (Model.Indexed.initial ep vals)).1).1.v = (runAllIx N app post s₂).1.v ∧
+      (runAllIx N app post (runAllIx N app pre (Model.Indexed.initial ep vals)).1).1.evs =
+        (runAllIx N app post s₂).1.evs := by
+  have G := gok hvalid hframes hbft hW hB hchk hsmall
+  have C := ctx_envFC G app hseal
+  have hsplit := (OrdererRestart3.pf_append N pre post []).1 horder
+  obtain ⟨dssP, vP, _, _, _, eP, CP⟩ := indexed_run_partial app ep pre G hseal hsplit.1
+  obtain ⟨s₂o, dss, hb, hsp, a, b, c⟩ := C08.C08_restart_invisible_partial N vals (envFC N app) ep hvalid hframes
+    hbft G.hb G.ok C.obs hseal pre post horder
+  obtain ⟨hr, C2⟩ := restart_sim G hseal CP hb
+  have hdone : ∀ x, x ∈ pre.reverse ++ [] ↔ x ∈ pre := by intro x; simp
+  obtain ⟨v1, e1, C1'⟩ := sim_all G hseal post _ (pre.reverse ++ []) dss CP hdone hsplit.2 a
+  obtain ⟨v2, e2, C2'⟩ := sim_all G hseal post _ (pre.reverse ++ []) dss C2 hdone hsplit.2 b
+  have hv : v1 = v2 := C1'.idx.run.trans C2'.idx.run.symm
+  refine ⟨⟨s₂o, vP, pre⟩, dss.map (fun ds => ds.map (fun d => (⟨d, specCheaters N d.atropos⟩ : Block))), ?_⟩
+  rw [eP]
+  refine ⟨hr, rfl, rfl, hsp, ?_, ?_, ?_, ?_, ?_⟩
+  · show (runAllIx N app post ⟨_, vP, pre⟩).2 = _
+    rw [e1, List.map_map]; rfl
+  · rw [e2, List.map_map]; rfl
+  · show OrdererRestart.SamePersisted (runAllIx N app post ⟨_, vP, pre⟩).1.o _
+    rw [e1, e2]; exact c
+  · show (runAllIx N app post ⟨_, vP, pre⟩).1.v = _
+    rw [e1, e2]; exact hv
+  · show (runAllIx N app post ⟨_, vP, pre⟩).1.evs = _
+    rw [e1, e2]
+
+/-! ### C07 for the combined model -/
+
+/-- calls that must leave no trace: every `Build`, and every `Process` that is not accepted -/
+def NoTrace (app : App) (s : IState) : Op → Prop
+  | .build _ => True
+  | .process e => ∀ bs, (processIndexed app s e).2 ≠ .ok bs
+
+/-- `Build` returns literally the state it was given -/
+theorem buildIndexed_state (app : App) (s : IState) (e : IEvent) : (buildIndexed app s e).1 = s := rfl
+
+/-- a `Process` that is rejected (wrong frame or election error) returns literally the state it was given -/
+theorem processIndexed_rejected (app : App) (s : IState) (e : IEvent)
+    (h : ∀ bs, (processIndexed app s e).2 ≠ .ok bs) : (processIndexed app s e).1 = s := by
+  unfold processIndexed at h ⊢
+  simp only [addEvent] at h ⊢
+  cases hp : process (envOf app s.o.vals (s.v.add ⟨s.o.vals.idxOf e.creator, e.seq, e.parents.map (pos s.evs)⟩)
+      (s.evs ++ [e.id])) s.o e.id e.creator e.spf e.claimed with
+  | mk o' r =>
+    rw [hp] at h
+    cases r with
+    | wrongFrame => rfl
+    | failed x => rfl
+    | ok ds =>
+      exfalso
+      simp only at h
+      split at h
+      · exact h _ rfl
+      · exact h _ rfl
+
+theorem step_noTrace (app : App) (s : IState) (op : Op) (h : NoTrace app s op) : (step app s op).1 = s := by
+  cases op with
+  | build e => rfl
+  | process e => exact processIndexed_rejected app s e h
+
+theorem runOps_append (app : App) (a b : List Op) (s : IState) :
+    runOps app (a ++ b) s =
+      ((runOps app b (runOps app a s).1).1, (runOps app a s).2 ++ (runOps app b (runOps app a s).1).2) := by
+  induction a generalizing s with
+  | nil => rfl
+  | cons op rest ih => simp only [List.cons_append, runOps, ih]
+
+/-- **C07 for the combined model**: a speculative `buildIndexed` or a rejected `processIndexed`, made
+    at any point of any log of calls, leaves no trace — the combined state (Orderer state, index
+    state, indexing order) after it is literally the state before it, hence every later answer and
+    the final state are those of the log without the call. True by construction of the model's
+    transaction (`Flush` / `DropNotFlushed` = keep the new / the old index state); that the real
+    `DropNotFlushed` restores the tables is what the `cons` correspondence stream checks. No
+    hypotheses. -/
+theorem indexed_no_trace (app : App) (s : IState) (pre post : List Op) (op : Op)
+    (h : NoTrace app (runOps app pre s).1 op) :
+    (runOps app (pre ++ op :: post) s).1 = (runOps app (pre ++ post) s).1 ∧
+    (runOps app (pre ++ op :: post) s).2 =
+      (runOps app pre s).2 ++ (step app (runOps app pre s).1 op).2 :: (runOps app post (runOps app pre s).1).2 ∧
+    (runOps app (pre ++ post) s).2 = (runOps app pre s).2 ++ (runOps app post (runOps app pre s).1).2 := by
+  rw [runOps_append, runOps_append]
+  simp only [runOps, step_noTrace app _ op h]
+  exact ⟨trivial, trivial, trivial⟩
+
+/-! ### non-vacuity: the three-event chain of `Proofs/ElectionExample.lean` (one validator, frames 1, 2, 3) -/
+namespace Example
+open ElectionExample
+
+def exApp : App := { idKey := fun x => x, sealAt := fun _ _ => none }
+
+theorem weightsOK : WeightsOK net :=
+  ⟨fun _ _ => Nat.one_pos, fun _ _ => (by decide : (1 : Nat) < 4294967296), fun _ _ _ _ => Nat.le_refl 1⟩
+
+theorem builtFor : BuiltFor net ElectionExample.vals := ⟨[(0, 1)], List.Perm.refl _, rfl⟩
+
+theorem checked : Checked net := by
+  intro e he
+  have h3 : e < 3 := he
+  have : e = 0 ∨ e = 1 ∨ e = 2 := by omega
+  rcases this with rfl | rfl | rfl
+  · exact ⟨1, fun _ => true, ⟨1, 1, 1, 1, 0⟩, [], rfl, rfl, ⟨by decide, by decide⟩, by decide⟩
+  · exact ⟨1, fun _ => true, ⟨1, 2, 2, 2, 0⟩, [⟨0, 0, 1, 1⟩], rfl, rfl, ⟨by decide, by decide⟩, by decide⟩
+  · exact ⟨1, fun _ => true, ⟨1, 3, 3, 3, 0⟩, [⟨1, 0, 2, 2⟩], rfl, rfl, ⟨by decide, by decide⟩, by decide⟩
+
+/-- the combined model, executed: three events accepted, the third decides frame 1 with Atropos 0 and
+    an empty cheater list (read from the instance's own index) -/
+example : (runAllIx net exApp [0, 1, 2] (Model.Indexed.initial 1 ElectionExample.vals)).2 =
+    [.ok [], .ok [], .ok [⟨⟨1, 1, 0, false⟩, []⟩]] := by decide +kernel
+
+/-- a speculative build leaves the state alone and answers the frame the event would get -/
+example : (buildIndexed exApp (runAllIx net exApp [0, 1] (Model.Indexed.initial 1 ElectionExample.vals)).1
+    (evOf net 2)).2 = 3 := by decide +kernel
+
+/-- all hypotheses of `indexed_order_independent_partial` hold on it -/
+example : ∃ (bss₁ bss₂ : List (List Block)),
+    (runAllIx net exApp [0, 1, 2] (Model.Indexed.initial 1 ElectionExample.vals)).2 = bss₁.map IRes.ok ∧
+    (runAllIx net exApp [0, 1, 2] (Model.Indexed.initial 2 ElectionExample.vals)).2 = bss₂.map IRes.ok ∧
+    bss₁.flatten.map blkc = bss₂.flatten.map blkc ∧
+    (runAllIx net exApp [0, 1, 2] (Model.Indexed.initial 1 ElectionExample.vals)).1.o.ldf =
+      (runAllIx net exApp [0, 1, 2] (Model.Indexed.initial 2 ElectionExample.vals)).1.o.ldf :=
+  indexed_order_independent_partial net _ _ exApp exApp 1 2 [0, 1, 2] [0, 1, 2] valid framesAccepted bft
+    OrdererProofs.Example.pf OrdererProofs.Example.pf C01.EpochExample.ex_all C01.EpochExample.ex_all
+    weightsOK builtFor builtFor checked (by decide) (fun _ _ => rfl) (fun _ _ => rfl)
+
+/-- … and of `indexed_restart_invisible_partial`: restart after the first event -/
+example : ∃ (s₂ : IState) (bss : List (List Block)),
+    restartIndexed exApp (runAllIx net exApp [0] (Model.Indexed.initial 1 ElectionExample.vals)).1 = .ok (s₂, [], false) ∧
+    (runAllIx net exApp [1, 2] (runAllIx net exApp [0] (Model.Indexed.initial 1 ElectionExample.vals)).1).2 = bss.map IRes.ok ∧
+    (runAllIx net exApp [1, 2] s₂).2 = bss.map IRes.ok := by
+  obtain ⟨s₂, bss, h1, _, _, _, h5, h6, _⟩ := indexed_restart_invisible_partial net _ exApp 1 valid framesAccepted bft
+    weightsOK builtFor checked (by decide) (fun _ _ => rfl) [0] [1, 2] OrdererProofs.Example.pf
+  exact ⟨s₂, bss, h1, h5, h6⟩
+
+end Example
+
 end Consensus
